@@ -118,6 +118,7 @@ func runC14Gaps2(c *eng.Ctx) {
 	c14gUpgradeGate(c)
 	c14gLockTable(c)
 	c14gSaltCache(c)
+	c14gBatchLoops(c)
 }
 
 // ---- the storage key of a version is a function of (key, version)
@@ -1043,4 +1044,79 @@ func c14FollowedVersionDeletes(f *ssa.Function, st *types.Interface) []c14VerDel
 		}
 	}
 	return out
+}
+
+// ---------------------------------------------------------------------------
+// C14.4 batch handlers (delete / undelete / destroy of a list of versions):
+// skipping one named version continues with the next one. No success exit is
+// reachable from inside a per-version loop except across the loop's exit, and
+// where the metadata write follows the loop every success exit from the loop's
+// exit passes it (seed C14-f: `continue` turned into `return nil, nil`).
+func c14gBatchLoops(c *eng.Ctx) {
+	isVersionsField := func(v ssa.Value) bool {
+		v = c14Resolve(v)
+		if ta, ok := v.(*ssa.TypeAssert); ok {
+			v = ta.X
+		}
+		g, ok := v.(*ssa.Call)
+		if !ok || eng.CalleeName(&g.Call) != "framework.(*FieldData).Get" || len(g.Call.Args) != 2 {
+			return false
+		}
+		_, isParam := g.Call.Args[0].(*ssa.Parameter)
+		return isParam && eng.Expr(g.Call.Args[1]) == `"versions"`
+	}
+	nLoops := 0
+	for _, fn := range []string{"kv.(*versionedKVBackend).pathDeleteWrite$1", "kv.(*versionedKVBackend).pathUndeleteWrite$1", "kv.(*versionedKVBackend).pathDestroyWrite$1"} {
+		f := c.Fn(fn)
+		if f == nil {
+			continue
+		}
+		c.Clause("R2", "C14.4")
+		succ := eng.SuccessReturns(f, 1)
+		wkm, _ := c14MetaWrites(f)
+		n := 0
+		for _, b := range f.Blocks {
+			iff := eng.IfOf(b)
+			if iff == nil {
+				continue
+			}
+			bo, ok := iff.Cond.(*ssa.BinOp)
+			if !ok || !(bo.Op == token.LSS || bo.Op == token.GTR) {
+				continue
+			}
+			lenSide := bo.Y
+			if bo.Op == token.GTR {
+				lenSide = bo.X
+			}
+			lc, ok := lenSide.(*ssa.Call)
+			if !ok || eng.CalleeName(&lc.Call) != "len" || len(lc.Call.Args) != 1 || !isVersionsField(lc.Call.Args[0]) {
+				continue
+			}
+			body, exit := eng.Edge{From: b, Succ: 0}, eng.Edge{From: b, Succ: 1}
+			// a loop header: the body leads back to the test
+			if eng.Reach(eng.Query{Fn: f, StartEdges: []eng.Edge{body}, Target: func(in ssa.Instruction) bool { return in == ssa.Instruction(iff) }}) == nil {
+				continue
+			}
+			n++
+			nLoops++
+			site := "per-version loop: success only across the loop's exit"
+			if h := eng.Reach(eng.Query{Fn: f, StartEdges: []eng.Edge{body}, Blocked: []eng.Edge{exit}, Target: eng.IsTarget(succ)}); h != nil {
+				c.Violation(f, site, h.Instr.Pos(), "a success return is reachable from inside the loop over the request's version numbers without finishing the loop: the versions named after the skipped one are not processed (and what was already marked is neither persisted nor committed) while the caller is told the operation succeeded", h.Witness)
+			} else {
+				c.OK(f, site, iff.Cond.Pos(), "every nil-error return reachable from the loop body crosses the loop's exit edge")
+			}
+			// where the metadata write comes after this loop, success from the loop's exit passes it
+			if eng.Reach(eng.Query{Fn: f, StartEdges: []eng.Edge{exit}, Target: eng.IsTarget(eng.AsInstrs(wkm))}) != nil {
+				site = "per-version loop: success after the loop passes the metadata write"
+				if h := eng.Reach(eng.Query{Fn: f, StartEdges: []eng.Edge{exit}, Barriers: eng.AsInstrs(wkm), Target: eng.IsTarget(succ)}); h != nil {
+					c.Violation(f, site, h.Instr.Pos(), "after the per-version loop a success return is reachable without the metadata write: the marks made in the loop are dropped", h.Witness)
+				} else {
+					c.OK(f, site, iff.Cond.Pos(), "every nil-error return after the loop lies behind writeKeyMetadata")
+				}
+			}
+		}
+		c.Floor(f, "loops over the request's version numbers", n, 1)
+	}
+	c.Clause("R2", "C14.4")
+	c.Floor(nil, "per-version loops of the batch handlers", nLoops, 4)
 }
